@@ -162,6 +162,13 @@ def run(pairs, abort=False, serial=False, cli_every=8):
         if r["load_err"]:
             o["skipped"] = "patch rejected: " + r["load_err"][:200]
             continue
+        if r.get("hook_panic"):
+            # rewriting panics (the public API recovers and reports an internal error): nothing to compare
+            o["skipped"] = "rewriting panics, reported as an error by Apply: " + (r.get("api_err") or "")[:120]
+            if not r.get("api_err"):
+                o["skipped"] = None
+                o["diffs"].append("the step-by-step run panics (%s) but patch.File.Apply reports no error" % r["hook_panic"][:120])
+            continue
         if r["parse_err"]:
             o["skipped"] = "target does not parse"
             continue
